@@ -185,7 +185,7 @@ func (d Dialer) Dial(ctx context.Context, urlstr string) (conn net.Conn, br *buf
 	} else {
 		// Context could be canceled or its deadline could be exceeded.
 		// Start the interrupter goroutine to handle context cancelation.
-		done := setupContextDeadliner(ctx, conn)
+		done := setupContextDeadliner(dialctx, conn)
 		defer func() {
 			// Map Upgrade() error to a possible context expiration error. That
 			// is, even if Upgrade() err is nil, context could be already
